@@ -17,8 +17,8 @@ from .conccheck import cstr
 IMPL = os.path.join(tlc.SPEC, "impl")
 NOPATH = ["-", "-"]
 COND_TABLE = {"C1": "objpid", "C2": "cid", "C3": "doc", "C4": "refpid"}
-SHARED = {"obj", "pidref", "cidref", "doc", "objdel", "pidrefdel", "cidrefdel", "docdel"}
-MODELLED_OPS = {"store", "storenp", "tag", "delete", "dii"}
+SHARED = {"obj", "pidref", "cidref", "doc", "objdel", "pidrefdel", "cidrefdel", "docdel", "docdel2", "docdel3"}
+MODELLED_OPS = {"store", "storenp", "tag", "delete", "dii", "putmeta", "getmeta", "delmeta"}
 
 
 def semantic(raw):
@@ -57,7 +57,7 @@ def semantic(raw):
             out.append({"t": t, "op": "stat", "a": a, "b": NOPATH, "out": o, "val": []})
         elif op == "open:r":
             mode[key] = "r"
-            if a[0] in ("pidref", "cidref"):
+            if a[0] in ("pidref", "cidref", "doc"):
                 out.append({"t": t, "op": "read", "a": a, "b": NOPATH, "out": okfnf,
                             "val": e.get("val", [])})
         elif op == "open:rw":
@@ -81,9 +81,15 @@ def semantic(raw):
     return out
 
 
-def _tlc(module, cfg, scen_file, workers, timeout=900):
+def _tlc(module, cfg_tmpl, consts, scen_file, workers, timeout=900):
     work = os.path.join(tlc.scratch_root(), "impl.%d.%d" % (os.getpid(), random.randrange(1 << 30)))
     os.makedirs(work, exist_ok=True)
+    cfg = os.path.join(work, "run.cfg")
+    txt = open(os.path.join(IMPL, cfg_tmpl)).read()
+    for k, val in consts.items():
+        txt = txt.replace("@%s@" % k, tlc.tla_set(val))
+    with open(cfg, "w") as f:
+        f.write(txt)
     cmd = ["java", "-XX:+UseParallelGC", "-Xmx3g", "-cp", tlc.JAR, "tlc2.TLC", "-workers", str(workers),
            "-metadir", os.path.join(work, "meta"), "-noGenerateSpecTE", "-config", cfg, module]
     env = dict(os.environ, SCEN_FILE=scen_file)
@@ -128,20 +134,61 @@ def _one(args):
             seen.add(key)
             runs.append({"events": semantic(rec["raw"]),
                          "results": {t: rec["results"][t]["cls"] for t in tids},
+                         "data": {t: (rec["results"][t]["data"]
+                                      if sc.threads[t]["op"] in ("store", "storenp", "getmeta")
+                                      and rec["results"][t]["cls"] == "ok" else "-") for t in tids},
                          "schedule": rec["schedule"]})
+        # planted corruptions of the first recorded run: the model must REJECT each of them
+        # (demonstrates that the trace specification constrains more than length)
+        n_real = len(runs)
+        planted = []
+        if runs and idx % 4 == 0:
+            import copy
+            base_run = runs[0]
+            evs = base_run["events"]
+            ks = [k for k, e in enumerate(evs) if e["op"] == "stat"]
+            if ks:
+                c1 = copy.deepcopy(base_run)
+                k = ks[len(ks) // 2]
+                c1["events"][k]["out"] = "N" if c1["events"][k]["out"] != "N" else "F"
+                planted.append(("flip one stat outcome", c1))
+            ks = [k for k, e in enumerate(evs) if e["op"] == "sec" and e["out"] == "release"]
+            if ks:
+                c2 = copy.deepcopy(base_run)
+                del c2["events"][ks[0]]
+                planted.append(("drop one release event", c2))
+            ks = [k for k, e in enumerate(evs) if e["op"] == "rename"]
+            if ks:
+                c3 = copy.deepcopy(base_run)
+                k = ks[-1]
+                if k > 0:
+                    c3["events"][k - 1], c3["events"][k] = c3["events"][k], c3["events"][k - 1]
+                    if c3["events"] != evs:
+                        planted.append(("swap a rename with the step before it", c3))
+        runs = runs + [c for _, c in planted]
         scen = {"job": {t: c for t, c in sc.threads.items()}, "start": ex.start_abs, "runs": runs}
         sf = os.path.join(base, "scen.json")
         with open(sf, "w") as f:
             json.dump(scen, f)
-        out, wall = _tlc("TraceSteps.tla", "TraceSteps.cfg", sf, 1)
+        consts = dict(ex.inst.constants())
+        consts["Ops"] = sorted(MODELLED_OPS)
+        out, wall = _tlc("TraceSteps.tla", "TraceSteps.cfg.tmpl", consts, sf, 1)
         got = {}
         for m in re.finditer(r'"RUN (\d+) (-?\d+) OF (\d+)"', out):
             got[int(m.group(1))] = (int(m.group(2)), int(m.group(3)))
-        res["runs"] = len(runs)
-        res["events"] = sum(len(r_["events"]) for r_ in runs)
+        res["runs"] = n_real
+        res["events"] = sum(len(r_["events"]) for r_ in runs[:n_real])
+        res["planted"] = len(planted)
+        res["planted_rejected"] = 0
         if len(got) != len(runs):
             res["error"] = out[-1500:]
         for k, (at, total) in sorted(got.items()):
+            if k > n_real:
+                if at != -1:
+                    res["planted_rejected"] += 1
+                else:
+                    res.setdefault("planted_accepted", []).append(planted[k - n_real - 1][0])
+                continue
             if at == -1:
                 res["accepted"] += 1
             else:
@@ -151,7 +198,7 @@ def _one(args):
                                      "schedule": runs[k - 1]["schedule"]})
         res["trace_wall"] = round(wall, 1)
         if do_mc:
-            out, wall = _tlc("MCImpl.tla", "MCImpl.cfg", sf, 2)
+            out, wall = _tlc("MCImpl.tla", "MCImpl.cfg.tmpl", consts, sf, 2)
             m = re.search(r"(\d+) states generated, (\d+) distinct states found", out)
             res["mc"] = {"generated": int(m.group(1)) if m else 0, "distinct": int(m.group(2)) if m else 0,
                          "violated": re.findall(r"Invariant (\S+) is violated", out)
